@@ -385,7 +385,7 @@ pub fn walk_mutation_case(a: &Args, idx: u64, acc: &mut Acc) {
     if crate::prepop::write_tree(&sb.root, "", &tree).is_err() {
         return;
     }
-    let sync_items: Result<(Vec<String>, usize), String> = (|| {
+    let sync_guarded = guard(|| (|| -> Result<(Vec<String>, usize), String> {
         let mut it = sb.root.walk_dir().map_err(|e| e.to_string())?;
         let mut oks = vec![];
         let mut errs = 0usize;
@@ -415,7 +415,14 @@ pub fn walk_mutation_case(a: &Args, idx: u64, acc: &mut Acc) {
         }
         oks.sort();
         Ok((oks, errs))
-    })();
+    })());
+    let sync_items = match sync_guarded {
+        Ok(x) => x,
+        Err(p) => {
+            acc.violate(Violation { property: "C13", signature: format!("panic|walk-under-removal|{}|{}|{}", cfg.family(), p.head(), p.file()), summary: format!("walk_dir with listed entries removed mid-walk panicked: {} at {}", p.message, p.location), detail: J::obj().set("tag", J::s("c15-walk-mutation")).set("seed", J::i(a.seed)).set("history", J::i(idx)).set("config", J::s(cfg.desc())), order: idx });
+            return;
+        }
+    };
     // ---- async
     let ab = match guard(|| block_on(abuild(&cfg, vec![0]))) {
         Ok(b) => b,
@@ -466,7 +473,10 @@ pub fn walk_mutation_case(a: &Args, idx: u64, acc: &mut Acc) {
     acc.steps += 1;
     let detail = J::obj().set("tag", J::s("c15-walk-mutation")).set("seed", J::i(a.seed)).set("history", J::i(idx)).set("config", J::s(cfg.desc())).set("children", J::i(n as u64)).set("pulled_before_removal", J::i(pulls_before as u64)).set("poll_schedule", J::s(format!("{:?}", sched)));
     match async_items {
-        Err(p) => acc.violate(Violation { property: "C15", signature: format!("walk-mutation-panic|{}", cfg.shape()), summary: format!("async walk under removal panicked: {}", p.message), detail, order: idx }),
+        Err(p) => {
+            acc.violate(Violation { property: "C13", signature: format!("panic|async-walk-under-removal|{}|{}|{}", cfg.family(), p.head(), p.file()), summary: format!("async walk_dir with listed entries removed mid-walk panicked: {} at {}", p.message, p.location), detail: detail.clone(), order: idx });
+            acc.violate(Violation { property: "C15", signature: format!("walk-mutation-panic|{}", cfg.shape()), summary: format!("async walk under removal panicked: {}", p.message), detail, order: idx })
+        }
         Ok(ai) => {
             // with one item pulled nothing inside /d has been listed yet: both worlds see an empty /d afterwards;
             // with two pulled, the remaining n-1 listed children vanish: one error each, in both worlds
